@@ -284,3 +284,5 @@ def run(ctx: Context) -> None:
     ctx.isolate(r4_fit_test)
     from . import c12
     ctx.isolate(c12.r1_admission, _alias={"C12.R1": "C13.R5"})
+    from . import c06
+    ctx.isolate(c06.remaining_time_table, "C13.R6")
